@@ -681,6 +681,21 @@ N_RANDOM = {'quick': 20000, 'thorough': 100000}
 N_FREE = {'quick': 400, 'thorough': 4000}
 
 
+def _pin(shard):
+    """Only one managed thread runs at a time, so a shard never uses more
+    than one core; keeping its threads on one core makes the hand-offs (a
+    futex wake-up each) several times cheaper than cross-core wake-ups."""
+    import os
+    if os.environ.get('VERIF_C13_NOPIN'):
+        return
+    try:
+        cpus = sorted(os.sched_getaffinity(0))
+        if len(cpus) > 1:
+            os.sched_setaffinity(0, {cpus[shard % len(cpus)]})
+    except (AttributeError, OSError):
+        pass
+
+
 def plan(tier, seed):
     return [{} for _ in range(16)]
 
@@ -689,6 +704,7 @@ def run_shard(spec, acc):
     env = Env.get()
     tier, shard, n, seed = spec['tier'], spec['shard'], spec['nshards'], \
         spec['seed']
+    _pin(shard)
     t0 = time.time()
     budget = SHARD_TIMEOUT[tier] * 0.8
     bad = [0]
